@@ -13,7 +13,7 @@ RULE = ("exhaustive box of (ns, nswin, overlap<nswin) triples sharded by nswin, 
         "a triple is non-trivial when it produces >= 2 windows; distinct = distinct triple "
         "(distinct_nontrivial counts them per shard and is summed over disjoint shards)")
 ASSUMPTIONS = ["numpy arithmetic is exact on the integer ranges used"]
-REQUIRED = {"triples": 1000, "splicing_sums_checked": 100, "valid_partitions_checked": 100, "nwin_checked": 1000}
+REQUIRED = {"triples": 1000, "interleaved_checked": 200, "splicing_sums_checked": 100, "valid_partitions_checked": 100, "nwin_checked": 1000}
 CASE_TIMEOUT = 600.0
 
 
@@ -120,6 +120,31 @@ def check_triple(res, ns, nswin, overlap, WG, fs=30000.0):
                       f"{T}: splicing amplitudes sum to [{tot.min():.4f}, {tot.max():.4f}] (n windows {n})")
         except Exception as e:
             res.exception(key + ":exception" if key != "splicing:overlap0" else key, e, f"{T} firstlast_splicing")
+    # the same laws when the generators of ONE object are consumed side by side (zip) or helpers are called inside the loop:
+    # which window is first / last is a fact about the window, not about a counter shared by the generators
+    if overlap % 2 == 0 and 2 * overlap <= nswin and (ns * 7 + nswin * 3 + overlap) % 5 == 0:
+        try:
+            once = np.zeros(ns, int)
+            tot = np.zeros(ns)
+            k = 0
+            for (f, l, fv, lv), (f2, l2, amp) in zip(wg.firstlast_valid, wg.firstlast_splicing):
+                wg.tscale(fs)
+                once[fv:lv] += 1
+                tot[f2:l2] += amp
+                k += (f, l) == (f2, l2)
+            res.count("interleaved_checked")
+            res.check(k == n and np.all(once == 1), "valid:partition:interleaved-generators",
+                      f"{T}: zip(firstlast_valid, firstlast_splicing) on one object: samples counted {np.unique(once).tolist()} times by the valid windows")
+            res.check(np.max(np.abs(tot - 1)) <= 1e-12, "splicing:interleaved-generators",
+                      f"{T}: zip(firstlast_valid, firstlast_splicing) on one object: amplitudes sum to [{tot.min():.4f}, {tot.max():.4f}]")
+            once = np.zeros(ns, int)
+            for (f, l), (f1, l1, fv, lv) in zip(wg.firstlast, wg.firstlast_valid):
+                list(wg.slice)
+                once[fv:lv] += 1
+            res.check(np.all(once == 1), "valid:partition:interleaved-generators", f"{T}: zip(firstlast, firstlast_valid) with slice inside the loop: samples counted "
+                      f"{np.unique(once).tolist()} times")
+        except Exception as e:
+            res.exception("interleaved:exception", e, f"{T}")
     return n
 
 
